@@ -36,4 +36,56 @@ func init() {
 		Real:   slReal, Stubbed: slStub,
 		Assume: []string{"the guard allocator never reuses an address within a run"},
 	})
+
+	nReal := commonReal
+	nStub := commonStubbed
+	nAssume := []string{"sequential consistency at yield-site granularity (every atomic step of skiplist and barrier, named windows in nitro, comparator/allocator/callback entry)", "usage contract of the API comments: one goroutine per Writer, NewSnapshot only while no Put/Delete is in flight, every snapshot and iterator closed before Nitro.Close", "plans bounded: <=4 writers, <=8 phases, <=16 operations per writer and phase, <=12 keys"}
+	nitroRule := func(what string) string {
+		return "one evaluation = one generated plan (" + what + ") executed on a real Nitro instance under one drawn schedule (random(p) / PCT(d<=4) / stall at a named site; worker bias eager/lazy/fair; site-class subset; both memory modes; default and key-only comparator); non-trivial = at least one preemption between call and return of an operation; distinct = distinct hash of scheduling trace + observed history"
+	}
+	defCheck(&checkDef{Prop: "C01", Level: "exploration",
+		Scens:     []scenBudget{{"nitro", 12000, 400000}, {"nitro_gc", 6000, 200000}, {"nitro_iter", 6000, 200000}},
+		Rule:      nitroRule("2-8 phases of 1-4 writers, snapshot at every phase barrier, readers scanning any open snapshot with hand-held iterators (refresh rate, explicit Refresh), Seek-then-scan, Visitor, Count while writers, closers (any close order) and GC/free workers run; oracle: every completed scan == frozen model content"),
+		Real:      nReal, Stubbed: nStub, Assume: nAssume,
+		WarnProbe: []string{"snapshots"},
+	})
+	defCheck(&checkDef{Prop: "C02", Level: "exploration",
+		Scens:  []scenBudget{{"nitro_seq", 20000, 600000}, {"nitro", 6000, 200000}},
+		Rule:   nitroRule("one client goroutine issuing Put/Put2/Delete/Delete2/DeleteNode/GetNode/NewSnapshot/Close through 1-3 writers (nitro_seq), and disjoint-ownership concurrent writers (nitro); collection and free workers run concurrently; oracle: every return value, ItemsCount, Snapshot.Count and snapshot content equal the reference set"),
+		Real:   nReal, Stubbed: nStub, Assume: nAssume,
+	})
+	defCheck(&checkDef{Prop: "C03", Level: "exploration",
+		Scens:  []scenBudget{{"nitro_race", 20000, 800000}},
+		Rule:   nitroRule("2-4 writers racing Put2/Delete/Delete2/DeleteNode/GetNode on 1-4 shared keys over 1-4 phases; oracle: porcupine per-key register with node identity over each phase history incl. the next snapshot's content as final reads, plus state-change arithmetic"),
+		Real:   nReal, Stubbed: nStub, Assume: append([]string{"porcupine histories bounded to <=4 clients x <=8 ops per phase; Unknown (timeout) counted as inconclusive"}, nAssume...),
+	})
+	c04 := checkDefs["C04"]
+	c04.Scens = []scenBudget{{"sl", 30000, 1000000}, {"nitro_race", 10000, 400000}, {"nitro", 6000, 200000}}
+	c04.Real = append(c04.Real, nReal...)
+	defCheck(&checkDef{Prop: "C06", Level: "exploration",
+		Scens:  []scenBudget{{"nitro_gc", 14000, 500000}, {"nitro", 8000, 250000}},
+		Rule:   nitroRule("delete-heavy histories (several writers deleting the same key in nitro_gc overlap mode), 3-8 snapshots, closers racing on different snapshots in every order; oracle at scheduler-detected quiescence: versions linked at level 0 == model's expected physical set under the in-order pinning rule, GetLastGCSn, snapshot lists, MemoryInUse; a forced GC() is allowed only when Close/GC calls overlapped"),
+		Real:   nReal, Stubbed: nStub, Assume: nAssume,
+		WarnProbe: []string{"gc_trigger_lost_then_forced"},
+	})
+	defCheck(&checkDef{Prop: "C07", Level: "exploration",
+		Scens:  []scenBudget{{"nitro", 10000, 300000}, {"nitro_gc", 6000, 200000}, {"nitro_race", 6000, 200000}},
+		Rule:   nitroRule("any nitro history in user-managed-memory mode run to the end: all iterators and snapshots closed, Nitro.Close as a task; oracle: guard allocator live set empty, no double/unknown free, barrier queue empty") + "; runs drawn with Go-managed memory exercise the same schedule space without the allocator oracle",
+		Real:   nReal, Stubbed: nStub, Assume: nAssume,
+	})
+	defCheck(&checkDef{Prop: "C09", Level: "exploration",
+		Scens:  []scenBudget{{"nitro_iter", 20000, 700000}},
+		Rule:   nitroRule("cursor programs (SeekFirst, Seek(present/absent/below min/above max), Next x n, Refresh, SetRefreshRate) on any open snapshot while older/newer versions are physically present and writers/GC run; oracle: model cursor over the frozen sorted list, same for every refresh setting"),
+		Real:   nReal, Stubbed: nStub, Assume: nAssume,
+		WarnProbe: []string{"cursor_programs"},
+	})
+	defCheck(&checkDef{Prop: "C10", Level: "exploration",
+		Scens:  []scenBudget{{"nitro_visit", 20000, 700000}},
+		Rule:   nitroRule("Visitor on latest and older snapshots, shards 1-40, concurrency 1-8, injected callback errors, writers and GC running; oracle: per-shard ascending, shard i before shard i+1, concatenation == frozen content exactly once, injected error => non-nil result, termination within the step budget"),
+		Real:   nReal, Stubbed: nStub, Assume: nAssume,
+		WarnProbe: []string{"visits", "visit_multi_shard"},
+	})
+	c14 := checkDefs["C14"]
+	c14.Scens = []scenBudget{{"sl", 30000, 1000000}, {"nitro", 8000, 250000}}
+	c14.Real = append(c14.Real, nReal...)
 }
